@@ -8,3 +8,25 @@ check("C16",
       "Static verdict, for every input at once, on the function that computes the cosmetic option: its full decision table (3 verdict kinds x 2^8 modifier subsets) equals All &^ union(disabled(m)); IsOptionEnabled is the mask test; each document-level modifier ors exactly its documented bits whatever was set before; the engine decodes the bits into the right gates; the proxy filters only when the option is not None. This is the right level because the property is a finite table over modifier bits, which the source determines completely.",
       "Trusted: go/ssa construction; the gated evaluator; exported constant names denote the documented modifiers. Not decided: nothing value-dependent remains for this property; the runtime behaviour is derived from the table, not observed.",
       "DESIGN.md section 4, C16")
+
+GATE = "static analysis over go/ssa: gated evaluation (block reach conditions as BDDs over opaque atoms), decision tables compared by enumeration inside the checker, wiring/ownership rules over the resolved program"
+TB = "Trusted: go/types+go/ssa construction, the gated evaluator (distinct address expressions assumed not to alias), the library purity table. "
+
+check("C01", GATE + "; IDX contract of lookup tables, counted-loop completeness evaluated on all small lengths",
+      "Static verdict on the structural contract that makes index lookup equal to a linear scan: every returned element re-validated by Match; every table consulted; complete window enumeration with the same width, hash and request field on insert and probe side; complete dot-suffix probe; wildcard-TLD rules declined by the exact-key table; Match implies the shortcut conjunct. Right level because these are all-paths/all-sites facts of the code's shape; set equality on concrete lists is derived from them, not observed.",
+      TB + "Not decided: that Match itself is right (C04), shortcut soundness for regex rules (C05).", "DESIGN.md section 4, C01")
+check("C02", GATE + "; ownership (freshness) analysis for writes through the argument slice",
+      "Static verdict on the DNS engine's wiring: host-table hits re-validated with the hashed name, every name keyed, constructor routing guarded by IsHostLevelNetworkRule, the full decision table of MatchRequest (empty host, unfiltered NetworkRules, basic rule wins and hosts not consulted, matched flag, v4/v6 split), lookup flag = len>0, selector never writes through its argument.",
+      TB + "Not decided: which modifiers are browser-only (product decision); pieces decided by C01/C06/C07/C18.", "DESIGN.md section 4, C02")
+check("C06", GATE,
+      "Static verdict: admission conditions of the document rule, the basic rule and the DNS basic rule, extracted as BDDs and compared with the statement's precedence table on every combination of the rule features they read; filters applied before selection; GetBasicResult table; engine wiring of request/referrer; twin test of badfilter covers every modifier field.",
+      TB + "Order independence is derived from C07 (strict weak order, complete scans), not observed.", "DESIGN.md section 4, C06")
+check("C07", GATE + "; SYM: order axioms by exhaustion over the abstracted comparison",
+      "Static verdict on the comparison function for all rules at once: same observables on both operands, identical key terms under f<->r, irreflexivity/asymmetry/transitivity/transitivity of incomparability by exhaustion over all abstract rules, equality with the documented lexicographic order, every modifier field counted, selection sites replace-if-higher with complete scans.",
+      TB + "Abstraction: observables and key treated as independent (more abstract rules than real ones); maximality of the scan result is the textbook consequence, not re-proved.", "DESIGN.md section 4, C07")
+check("C08", GATE + "; MULT: for-all scan structure of the badfilter filter; COV/SYM on the twin test",
+      "Static verdict: each candidate emitted at most once and only after a complete scan of all collected badfilter rules found no twin; badfilter rules never emitted; the twin test is a conjunction of same-field comparisons covering every modifier field; the option comparison drops exactly the badfilter bit; both selectors filter first.",
+      TB + "Accepted loop idioms for the for-all scan: inner loop with flag/break or labelled continue; other spellings are reported as undecided (fail closed).", "DESIGN.md section 4, C08")
+check("C09", GATE + "; ITER/TYFLOW/WIRE rules on the rewrite filter",
+      "Static verdict: no shrink-while-index-iterating; every returned value passed the filter deleting exception rules; decision tables of the exception matcher and remover equal the statement on all valuations; rewrite values never compared by interface ==; only order-preserving operations; in-place operations on the fresh slice only; every exception applied by a complete scan of a complete exception list.",
+      TB + "slices.DeleteFunc order preservation and reflect.DeepEqual semantics are library contracts.", "DESIGN.md section 4, C09")
